@@ -73,6 +73,36 @@ CHECKS.update({
     ),
 })
 
+CHECKS.update({
+    "C01": (
+        "exploration",
+        "runtime monitor with scripted RNG: exact black-box extraction of the NUTS transition kernel, detailed balance over all state pairs",
+        "The hook-exported nuts::draw runs on a TransformedHamiltonian with explicit diagonal / low-rank transformation; momentum and "
+        "every random word are scripted. For each configuration the exact kernel P(z_a -> .) is measured from every state a of the "
+        "orbit segment by enumerating all direction sequences and all outcomes of the selection draws and bisecting each selection "
+        "threshold on the scripted 64-bit word (no probability is read from the implementation). Oracles: kernel sums to 1, "
+        "pi(z_a)P(a->b) = pi(z_b)P(b->a) for all pairs with energies computed by the harness, trajectories containing both states have "
+        "the same interval / depth / stop reason / weight from either start, direction threshold exactly 1/2. Exhaustive over RNG "
+        "decisions per configuration for maxdepth 2..3 (4 in thorough).",
+        "Densities, dimensions (1..6), step sizes and transformations are sampled; configurations with divergences, energy spread > 50 or "
+        "a U-turn product within 1e-7 of zero are inconclusive. Absolute tolerance 64 eps * (pi_a + pi_b) for cancellation in 1 - exp(.).",
+        "DESIGN.md §3 C01",
+    ),
+    "C03": (
+        "exploration",
+        "runtime monitor: per-draw invariants against a density evaluation log + U-turn audit of recorded trajectories (hook, scripted RNG)",
+        "Public API: chains of all six presets over 5 target families, dims 0..10, random maxdepth / mindepth / target time / energy limit; "
+        "every draw must be the previous position or a position evaluated in that call, carry the logged logp / gradient, be reproducible by an "
+        "independent density instance, satisfy index 0 <=> not moved, depth <= maxdepth, 2^depth-1 <= steps <= 2^(depth+1)-1, |index| <= 2^depth-1, "
+        "steps = density evaluations, at least one step, finite energies. Audit: single transitions with a recording collector; the U-turn "
+        "criterion is recomputed for the whole trajectory and every balanced sub-trajectory: never merged past a U-turn, never stopped without "
+        "one, maxdepth flag iff it was the only stop reason, returned state inside the accepted tree, held state buffers unchanged.",
+        "Audit runs with default tree options (mindepth 0, check_turning, no extra doublings); cross-spans the implementation documents count as "
+        "legitimate stopping spans. Degenerate U-turn products (1e-7) are inconclusive.",
+        "DESIGN.md §3 C03",
+    ),
+})
+
 NOT_YET = {}
 
 
